@@ -15,7 +15,7 @@ def cfg(n, gen=False):
 
 def validate(w, obs, label):
     tf = w.path("acltrace-%s-%d.ndjson" % (label, len(w.tlc_runs)))
-    write_ndjson(tf, [{k: o[k] for k in ("id", "arules", "aaddr", "reply", "trailing")} for o in obs])
+    write_ndjson(tf, [{k: o[k] for k in ("id", "arules", "aaddr", "reply", "trailing")} for o in obs], clamp=True)
     r = w.tlc("AclTrace", TRACE_CFG, env={"VERIF_TRACE": tf}, label="AclTrace-" + label, timeout=3000)
     if not r["completed"]:
         raise Broken("trace validation did not complete: " + r["out"][-3000:])
